@@ -82,7 +82,7 @@ class PathExec(object):
 
   def _norm(self, t):
     """-1 written as USub(1) inside larger terms."""
-    if not isinstance(t, tuple):
+    if not isinstance(t, tuple) or not t:
       return t
     if t[0] == 'call' and len(t) == 3 and t[1] == 'USub' and isinstance(t[2], tuple) and t[2][0] == 'const' and \
        isinstance(t[2][1], (int, float)):
